@@ -680,6 +680,14 @@ example : (match parse ⟨true, true⟩ .mdp sampleText with
         tableList r.st.wR 2 1 2 == [.fin (-1), .fin (-1), .fin 0, .fin 0]
     | .error _ => false) = true := by decide +kernel
 
+/-- `FileDenotes` (the hypothesis of `parser_refines_spec`) is inhabited by the sample file -/
+example : ∃ p lines sT sR sW, parseModelInfo (splitLines sampleText) {} [] = .ok (p, lines) ∧ FileDenotes .mdp p lines 0 sT sR sW := by
+  have h : (parse ⟨true, true⟩ .mdp sampleText).toOption.isSome = true := by decide +kernel
+  rcases h' : parse ⟨true, true⟩ .mdp sampleText with e | r
+  · rw [h'] at h; cases h
+  · obtain ⟨lines, sT, sR, sW, hpre, _, _, _, hfile, _⟩ := parser_accepts_only_wellformed (fl := ⟨true, true⟩) rfl h'
+    exact ⟨r.pre, lines, sT, sR, sW, hpre, hfile⟩
+
 /-- `MatrixLine` is inhabited by a concrete wildcard/name line -/
 example : ∃ s, MatrixLine 2 1 2 [("go".toList, 0)] [("b".toList, 1), ("a".toList, 0)] [("b".toList, 1), ("a".toList, 0)]
     "T: * : b 0.25 0.75".toList [] s 0 := by
